@@ -80,6 +80,54 @@ def frame_atomic(chk, repo, wc, rule="C11.frame.atomic"):
     chk.expect_count(rule, n_sites, 3, "ways from the writer's coroutines to the transport")
 
 
+def hunt5_rules(chk, repo, wc, folder):
+    """Rules written after the fifth defect hunt (F274-F276)."""
+    from rules import C01
+    # ---- C11.negotiate.int (F274): the numbers of the permessage-deflate offer are converted under a bounded lexical gate ---------------------------
+    K.int_sites(chk, "C11.negotiate.int", repo, folder, ["aiohttp/_websocket/helpers.py"], {},
+                "the window-bits value of a `Sec-WebSocket-Extensions` offer is text of the peer (a 5000-digit value fits the header limits): the server answers 500 to the upgrade instead of declining the extension, the client's ws_connect() raises a bare ValueError instead of WSServerHandshakeError",
+                gate=C01.int_cannot_raise, min_sites=2)
+    # ---- C11.handshake.key (F275): every way base64 text of the peer can fail is caught -----------------------------------------------------------
+    n = 0
+    for rel in ("aiohttp/web_ws.py", "aiohttp/client_ws.py", "aiohttp/client.py"):
+        for fn in repo.module(rel).functions.values():
+            for c in prog.calls_in(fn.node):
+                if norm.raw(c.func) not in ("base64.b64decode", "base64.standard_b64decode", "binascii.a2b_base64") or getattr(c, "fn", None) is not fn:
+                    continue
+                n += 1
+                hs = [x for _t, h in K.enclosing_try_handlers(c) for x in PC.handler_types(h)]
+                if any(x in ("ValueError", "Exception") for x in hs):
+                    chk.ok("C11.handshake.key", c, f"{fn.qualname}: `{K.short(c, 40)}` is under a ValueError handler (binascii.Error for bad base64, plain ValueError for a non-ASCII str)")
+                else:
+                    chk.violation("C11.handshake.key", c, K.short(c), "except ValueError: (binascii.Error is a subclass)",
+                                  f"{fn.qualname} decodes base64 text of the peer under a handler for {', '.join(hs) or 'nothing'}: for a str with a non-ASCII character b64decode() raises a plain ValueError, which leaves prepare() - a handshake with such a Sec-WebSocket-Key is answered 500 with a traceback instead of 400")
+    chk.expect_count("C11.handshake.key", n, 1, "base64 decodings of handshake header values")
+    # ---- C11.closing.pending (F276): close() lets the send tasks that were created but have not started yet go first ---------------------------------
+    # The ordering argument of C11.closing rests on the send task queueing for the lock in the step that creates it (eager start).  Where
+    # send_frame() has a fallback that creates the task lazily (interpreters before 3.12), close() has to wait for the tasks it knows of.
+    sf = K.with_spawn_helpers(wc, "send_frame")
+    lazy = [c for c in prog.calls_in(sf.node) if isinstance(c.func, ast.Attribute) and c.func.attr == "create_task"]
+    cf = wc.methods["close"]
+    if not lazy:
+        chk.ok("C11.closing.pending", cf, "send_frame() creates its tasks eagerly only: they queue for the lock in the step that creates them")
+    else:
+        g = cfg_of(cf.node)
+        lock = [n_ for n_ in g.nodes if n_.kind == "with-enter" and "self._send_lock" in norm.raw(n_.ast)] or [n_ for n_ in g.nodes if isinstance(getattr(n_, "ast", None), ast.AsyncWith) and "self._send_lock" in norm.raw(n_.ast.items[0].context_expr)]
+        waits = [n_ for n_ in g.nodes if n_.in_finally_copy is None and isinstance(getattr(n_, "ast", None), ast.AST) and n_.kind in ("stmt", "test") and any(
+            norm.raw(c.func) in ("asyncio.wait", "asyncio.gather") and "self._background_tasks" in norm.raw(c) for c in K.node_calls(n_))]
+        # skipping the wait is fine when there is nothing to wait for
+        def empty_set(a, b, k):
+            return a.kind == "test" and k == "F" and norm.raw(a.ast) == "self._background_tasks"
+        p_ = K.find_path_edges(g, [g.entry], lambda n_: n_ in lock, lambda n_: n_ in waits, empty_set, EXPLICIT) if lock else None
+        if lock and waits and p_ is None:
+            chk.ok("C11.closing.pending", waits[0].ast, "close() waits for the send tasks it knows of before it takes the lock: a task created lazily (no eager start before 3.12) is not overtaken by the Close frame")
+        elif not lock:
+            chk.analysis_error("C11.closing.pending: `async with self._send_lock` not found in WebSocketWriter.close")
+        else:
+            chk.violation("C11.closing.pending", lock[0].ast, "async with self._send_lock:", "if self._background_tasks: await asyncio.wait(self._background_tasks)  before the lock",
+                          f"send_frame() has a lazily started task (`{K.short(lazy[0], 40)}`, interpreters without eager_start): a large compressed message passed the closing test, but its task has not queued for the lock when close() runs in the same loop iteration - the Close frame is written first and the message follows Close on the wire (requires-python is >= 3.10)", path=g.fmt_path(p_) if p_ else None)
+
+
 def run(chk):
     repo = chk.repo
     folder = Folder(repo)
@@ -410,6 +458,7 @@ def run(chk):
     # ---- C11.bytelen: frame lengths are byte counts; len() of a memoryview counts items ---------------------------------------------------
     bytelen(chk, repo, sf, "message", "C11.bytelen")
     frame_atomic(chk, repo, wc)
+    hunt5_rules(chk, repo, wc, folder)
     # ---- C11.copy: what reaches the transport is not a buffer the caller can still change ---------------------------------------------
     wf = repo.func(WM, f"{W}._write_websocket_frame")
     params = {a.arg for a in wf.node.args.args[1:]}
